@@ -12,6 +12,11 @@
 (*    and, if the id is the same, by the same request again;               *)
 (*  * the caller gets exactly the rows the node encoded, all columns of    *)
 (*    the schema version they were served at, or the id-changed error.     *)
+(* Two handles of the same SELECT exist: the one `Session::prepare` gave    *)
+(* ("p") and the one the CachingSession keeps for the same text ("c", made *)
+(* by the first cached execution); each has its own view of the announced  *)
+(* columns / metadata id.  A server event may also happen between the two  *)
+(* pages of a paged execution (it is logged between the frames).           *)
 (* Bad histories are printed (<<"BAD", history id, line, what>>), the      *)
 (* rest of the input is still judged.                                      *)
 (***************************************************************************)
@@ -20,23 +25,24 @@ Rec == ndJsonDeserialize(IOEnv.TRACE)
 VARIABLES l,
           ext, skipopt, ver, lay, prep, salt,     \* server model (lay: the column layout, PreparedProp.Layout0); prep[n] = set of statements ("select","insert") prepared under OUR id
           base,                              \* [select |-> id, insert |-> id] learned from the setup
-          cols, mids,                        \* announced to the client: column layout ("none" before the first); set of metadata ids it may hold
-          op,                                \* current operation [op, node, pk, frames seen, pend, pages, failed]
+          cols, mids,                        \* per handle ("p", "c"): announced column layout; set of metadata ids it may hold
+          cached,                            \* the CachingSession holds its handle of the SELECT
+          op,                                \* current operation [op, hd (handle), node, pk, frames seen, EXECUTEs seen, pend, pages, failed]
           bad                                \* the current history was already reported
-vars == <<l, ext, skipopt, ver, lay, prep, salt, base, cols, mids, op, bad>>
+vars == <<l, ext, skipopt, ver, lay, prep, salt, base, cols, mids, cached, op, bad>>
 
-Idle == [op |-> "idle", node |-> 0, pk |-> 0, n |-> 0, pend |-> <<0, "none">>, pages |-> << >>, failed |-> 0, first |-> << >>]
+Idle == [op |-> "idle", hd |-> "p", node |-> 0, pk |-> 0, n |-> 0, ne |-> 0, pend |-> <<0, "none">>, pages |-> << >>, failed |-> 0, first |-> << >>]
 NoLayout == [extra |-> 99, bgen |-> 99]
 NoBase == [select |-> << >>, insert |-> << >>, insert2 |-> << >>]
 TraceInit == /\ l = 1 /\ ext = <<0, 0>> /\ skipopt = 0 /\ ver = 1 /\ lay = Layout0 /\ prep = <<{}, {}>> /\ salt = <<0, 0>>
-             /\ base = NoBase /\ cols = NoLayout /\ mids = {} /\ op = Idle /\ bad = FALSE /\ TLCSet(1, 1)
+             /\ base = NoBase /\ cols = [p |-> NoLayout, c |-> NoLayout] /\ mids = [p |-> {}, c |-> {}] /\ cached = FALSE /\ op = Idle /\ bad = FALSE /\ TLCSet(1, 1)
 
 Report(what) == IF bad THEN TRUE ELSE PrintT(<<"BAD", Rec[l].h, l, what>>)
 \* judge a condition: a failure marks the history bad (reported once), the walk continues
 Chk(c, what) == IF c THEN bad' = bad ELSE Report(what) /\ bad' = TRUE
 
 Reset(e) == /\ ext' = e.ext /\ skipopt' = e.skip /\ ver' = 1 /\ lay' = Layout0 /\ prep' = <<{}, {}>> /\ salt' = <<0, 0>>
-            /\ base' = NoBase /\ cols' = NoLayout /\ mids' = {} /\ op' = Idle /\ bad' = FALSE
+            /\ base' = NoBase /\ cols' = [p |-> NoLayout, c |-> NoLayout] /\ mids' = [p |-> {}, c |-> {}] /\ cached' = FALSE /\ op' = Idle /\ bad' = FALSE
 
 Event(e) ==
   /\ CASE e.ev = "evict" -> prep' = [prep EXCEPT ![e.node + 1] = {}] /\ UNCHANGED <<ver, lay, salt>>
@@ -44,60 +50,68 @@ Event(e) ==
        [] e.ev = "alter_evict" -> ver' = ver + 1 /\ lay' = [lay EXCEPT !.extra = @ + 1] /\ prep' = <<{}, {}>> /\ UNCHANGED salt
        [] e.ev = "rename_evict" -> ver' = ver + 1 /\ lay' = [lay EXCEPT !.bgen = ver + 1] /\ prep' = <<{}, {}>> /\ UNCHANGED salt
        [] e.ev = "idchange" -> salt' = [salt EXCEPT ![e.node + 1] = 1] /\ prep' = [prep EXCEPT ![e.node + 1] = {}] /\ UNCHANGED <<ver, lay>>
-  /\ UNCHANGED <<ext, skipopt, base, cols, mids, op, bad>>
+  /\ UNCHANGED <<ext, skipopt, base, cols, mids, cached, op, bad>>
 
-BeginOp(e) == /\ op' = [Idle EXCEPT !.op = e.op, !.node = e.node + 1, !.pk = e.pk]
-              /\ UNCHANGED <<ext, skipopt, ver, lay, prep, salt, base, cols, mids, bad>>
+BeginOp(e) == /\ op' = [Idle EXCEPT !.op = e.op, !.hd = e.hd, !.node = e.node + 1, !.pk = e.pk]
+              /\ UNCHANGED <<ext, skipopt, ver, lay, prep, salt, base, cols, mids, cached, bad>>
 
 \* ------------------------------------------------------------------ frames
 Prepare(f, n) ==
   LET s == f.stmt
       ours == salt[n] = 0
-      known == base[s] # << >> IN
+      known == base[s] # << >>
+      \* the first cached execution prepares the statement (on every node) before it executes anything
+      making == op.op # "idle" /\ op.hd = "c" /\ ~cached /\ op.ne = 0 /\ op.pend[2] = "none" /\ s = "select"
+      initial == op.op = "idle" \/ making
+      hd == op.hd IN
   /\ Chk(/\ f.reply = "prepared"
          /\ (known => (f.reply_id = base[s]) = ours)                                       \* the model's id
          /\ f.reply_mid = (IF ext[n] = 1 THEN Some(Mid(ver)) ELSE None)
          /\ f.reply_ncols = (IF s = "select" THEN 2 + lay.extra ELSE 0)
          \* a PREPARE inside an execution only to re-prepare what that node reported unprepared
-         /\ (op.op \in {"exec", "exec_paged", "batch"} => op.pend = <<n, s>>),
+         /\ (op.op \in {"exec", "exec_paged", "batch"} => making \/ op.pend = <<n, s>>),
          "prepare frame")
   /\ base' = IF known THEN base ELSE [base EXCEPT ![s] = f.reply_id]
   /\ prep' = IF ours \/ ~known THEN [prep EXCEPT ![n] = @ \cup {s}] ELSE prep
   \* what the statement's preparation announces: the columns; with the extension also the id
   /\ IF s = "select" /\ (ours \/ ~known)
-     THEN /\ cols' = lay
-          /\ mids' = IF op.op = "idle" THEN mids \cup (IF ext[n] = 1 THEN {Mid(ver)} ELSE {<< >>})     \* setup: whichever answer the handle kept
-                     ELSE IF ext[n] = 1 THEN {Mid(ver)} ELSE mids \cup {<< >>}      \* announced without an id: the old id or none may be presented (the server corrects either)
+     THEN /\ cols' = [cols EXCEPT ![hd] = lay]
+          /\ mids' = [mids EXCEPT ![hd] =
+                        IF initial THEN @ \cup (IF ext[n] = 1 THEN {Mid(ver)} ELSE {<< >>})     \* a fresh handle: whichever answer it kept
+                        ELSE IF ext[n] = 1 THEN {Mid(ver)} ELSE @ \cup {<< >>}]      \* announced without an id: the old id or none may be presented (the server corrects either)
      ELSE UNCHANGED <<cols, mids>>
   /\ op' = IF op.op = "idle" THEN op
+           ELSE IF making THEN [op EXCEPT !.n = @ + 1]
            ELSE [op EXCEPT !.n = @ + 1, !.pend = IF ours THEN <<n, "again">> ELSE <<0, "none">>, !.failed = IF ours THEN @ ELSE 1]
-  /\ UNCHANGED <<ext, skipopt, ver, lay, salt>>
+  /\ UNCHANGED <<ext, skipopt, ver, lay, salt, cached>>
 
 Execute(f, n) ==
   LET s == f.stmt
       reply == IF s = "select" THEN ExecReply(ext[n], ver, s \in prep[n], f.rmid, f.skip)
                ELSE IF s \in prep[n] THEN "void" ELSE "unprepared"
-      firstOfOp == op.n = 0 IN
+      firstOfOp == op.ne = 0
+      hd == op.hd IN
   /\ Chk(/\ op.op \in {"exec", "exec_paged"} /\ s = "select" /\ op.failed = 0
+         /\ (hd = "c" /\ ~cached => salt = <<0, 0>>)                                          \* a handle that could not be made executes nothing
          /\ f.id = base.select                                                              \* never an id a node made up
          /\ f.values = <<PkBytes(op.pk)>>
          /\ (firstOfOp => n = op.node)
          /\ (ext[n] = 0 => f.rmid = None)
-         /\ (ext[n] = 1 => f.rmid.some = 1 /\ (f.rmid.v \in mids \/ (f.rmid.v = << >> /\ mids \subseteq {<< >>})))
+         /\ (ext[n] = 1 => f.rmid.some = 1 /\ (f.rmid.v \in mids[hd] \/ (f.rmid.v = << >> /\ mids[hd] \subseteq {<< >>})))
          /\ (op.pend[2] # "none" => op.pend = <<n, "again">> /\ f.paging = op.first.paging)     \* the same request again, after the re-preparation
          /\ f.reply = reply
          /\ (reply = "unprepared" => f.reply_id = f.id)
          /\ (reply = "rows_meta_newid" => f.reply_mid = Some(Mid(ver)) /\ f.reply_ncols = 2 + lay.extra),
          "execute frame")
-  /\ IF reply = "rows_meta_newid" THEN cols' = lay /\ mids' = {Mid(ver)} ELSE UNCHANGED <<cols, mids>>
-  /\ op' = [op EXCEPT !.n = @ + 1,
+  /\ IF reply = "rows_meta_newid" THEN cols' = [cols EXCEPT ![hd] = lay] /\ mids' = [mids EXCEPT ![hd] = {Mid(ver)}] ELSE UNCHANGED <<cols, mids>>
+  /\ op' = [op EXCEPT !.n = @ + 1, !.ne = @ + 1,
                       !.pend = IF reply = "unprepared" THEN <<n, s>> ELSE <<0, "none">>,
                       !.first = IF op.pend[2] = "none" THEN [paging |-> f.paging] ELSE @,
                       \* a page of rows: [paging state it answers, columns it must be decoded with]
-                      !.pages = IF reply \in {"rows_meta", "rows_meta_newid"} THEN Append(@, [paging |-> f.paging, ncols |-> lay, true |-> lay])
-                                ELSE IF reply = "rows_nometa" THEN Append(@, [paging |-> f.paging, ncols |-> cols, true |-> lay])
+                      !.pages = IF reply \in {"rows_meta", "rows_meta_newid"} THEN Append(@, [paging |-> f.paging, ncols |-> lay, true |-> lay, ver |-> ver])
+                                ELSE IF reply = "rows_nometa" THEN Append(@, [paging |-> f.paging, ncols |-> cols[hd], true |-> lay, ver |-> ver])
                                 ELSE @]
-  /\ UNCHANGED <<ext, skipopt, ver, lay, prep, salt, base>>
+  /\ UNCHANGED <<ext, skipopt, ver, lay, prep, salt, base, cached>>
 
 Batch(f, n) ==
   LET missing == IF "insert" \notin prep[n] THEN "insert" ELSE IF "insert2" \notin prep[n] THEN "insert2" ELSE "none"
@@ -110,30 +124,33 @@ Batch(f, n) ==
          /\ f.reply = reply /\ (reply = "unprepared" => f.reply_id = base[missing]),
          "batch frame")
   /\ op' = [op EXCEPT !.n = @ + 1, !.pend = IF reply = "unprepared" THEN <<n, missing>> ELSE <<0, "none">>,
-                      !.pages = IF reply = "void" THEN Append(@, [paging |-> None, ncols |-> lay, true |-> lay]) ELSE @]
-  /\ UNCHANGED <<ext, skipopt, ver, lay, prep, salt, base, cols, mids>>
+                      !.pages = IF reply = "void" THEN Append(@, [paging |-> None, ncols |-> lay, true |-> lay, ver |-> ver]) ELSE @]
+  /\ UNCHANGED <<ext, skipopt, ver, lay, prep, salt, base, cols, mids, cached>>
 
 Frame(f) == LET n == f.node + 1 IN
   CASE f.opcode = 9 -> Prepare(f, n) [] f.opcode = 10 -> Execute(f, n) [] f.opcode = 13 -> Batch(f, n)
 
 \* ------------------------------------------------------------------ results
-PageRows(p, pk) == IF op.op = "exec" THEN RowsOf(ver, lay, pk)
-                   ELSE IF p.paging = None THEN <<RowOf(ver, lay, pk, 0)>> ELSE <<RowOf(ver, lay, pk, 1)>>
+\* a page holds the rows of the schema version it was served at
+PageRows(p, pk) == IF op.op = "exec" THEN RowsOf(p.ver, p.true, pk)
+                   ELSE IF p.paging = None THEN <<RowOf(p.ver, p.true, pk, 0)>> ELSE <<RowOf(p.ver, p.true, pk, 1)>>
 RECURSIVE Cat(_)
 Cat(ss) == IF ss = << >> THEN << >> ELSE Head(ss) \o Cat(Tail(ss))
 Result(r) ==
   /\ Chk(CASE op.op \in {"exec", "exec_paged"} ->
-                IF op.failed = 1 THEN r.ok = 0 /\ r.kind = "reprepared_id_changed" /\ op.pend[2] = "none"
+                IF op.hd = "c" /\ ~cached /\ salt # <<0, 0>> THEN r.ok = 0 /\ op.ne = 0      \* the nodes disagree on the id: no handle, nothing executed
+                ELSE IF op.failed = 1 THEN r.ok = 0 /\ r.kind = "reprepared_id_changed" /\ op.pend[2] = "none"
                 ELSE /\ r.ok = 1
                      /\ Len(op.pages) = (IF op.op = "exec" THEN 1 ELSE 2)
                      \* decoded with the metadata of the frame, or with the one announced to the client: both must be the true one
                      /\ \A i \in 1..Len(op.pages) : op.pages[i].ncols = op.pages[i].true
-                     /\ r.cols = ColNames(lay)
+                     /\ r.cols = ColNames(op.pages[1].true)          \* (a paged result reports the columns of its first page)
                      /\ r.rows = Cat([i \in 1..Len(op.pages) |-> PageRows(op.pages[i], op.pk)])
             [] op.op = "batch" -> IF op.failed = 1 THEN r.ok = 0 /\ r.kind = "reprepared_id_changed" ELSE r.ok = 1 /\ Len(op.pages) = 1
             [] op.op = "prepare" -> r.ok = (IF salt = <<0, 0>> THEN 1 ELSE 0),
          "result")
   /\ op' = Idle
+  /\ cached' = (cached \/ (op.hd = "c" /\ op.ne > 0))
   /\ UNCHANGED <<ext, skipopt, ver, lay, prep, salt, base, cols, mids>>
 
 Step(e) == CASE e.t = "reset" -> Reset(e) [] e.t = "ev" -> Event(e) [] e.t = "op" -> BeginOp(e)
